@@ -169,7 +169,16 @@ def roundtrip_cases(chk, drv, work):
             chk.fail('C18:file-content', 'the dataset is not the global field in the recorded layout (or wrong Layout attribute)', case,
                      expected={'layout': ord_}, actual={'layout': lay_attr, 'equal': bool(np.array_equal(dset, want))})
             continue
-        r = read_with(folder, PR, lays, name, eta, nd, rng.choice([t, None]), conv, dtype)
+        req = rng.choice([t, None])
+        if t < 999999 and rng.random() < 0.6:
+            # a later checkpoint with other values in the same folder: an explicitly requested time (t = 0 included) must still be the one loaded
+            w2 = write_with(folder, PW, lays, name, eta, Gphys * 2 + 1, t + rng.choice([1, 5, 1000]), conv, dtype)
+            if not w2.ok:
+                chk.fail('C18:write-crash', 'Grid.writeH5Dataset raised: ' + str(w2.first_error())[:200], case)
+                continue
+            req = t
+            case = dict(case, later_checkpoint_present=True, requested_time=t)
+        r = read_with(folder, PR, lays, name, eta, nd, req, conv, dtype)
         if not r.ok:
             chk.fail('C18:read-crash', 'Grid.loadFromFile raised: ' + str(r.first_error())[:200], case)
             continue
@@ -334,6 +343,8 @@ def constants_cases(chk, drv, work):
             chk.fail('C18:constants-expr', 'symbolic expression in the parameter file evaluated wrongly', {'key': k}, expected=v, actual=ref[k])
     for it in range(chk.n(40, 400)):
         items = list(base_items)
+        if it % 4 == 1:
+            items.append(("CN0", rng.choice([0.5, 0.992378037, 1.25])))          # an explicitly given CN0 is a constant like any other
         rng.shuffle(items)
         if it % 5 == 0:
             # vary the values, keep the dependency structure
@@ -346,6 +357,10 @@ def constants_cases(chk, drv, work):
                      {'order': [k for k, _ in items]})
             continue
         got = public_attrs(c)
+        given = dict(items)
+        if 'CN0' in given and got.get('CN0') != given['CN0']:
+            chk.fail('C18:constants-CN0', 'an explicitly given CN0 is not reproduced by the parser', {'order': [k for k, _ in items]},
+                     expected=given['CN0'], actual=got.get('CN0'))
         # oracle (no model): every symbolic entry equals its expression evaluated, in dependency order, with THIS file's values
         import math as _m
         env = {k: v for k, v in items if not isinstance(v, str)}
@@ -360,10 +375,11 @@ def constants_cases(chk, drv, work):
                      {'order': [k for k, _ in items], 'values': {k: v for k, v in items if isinstance(v, float)}},
                      expected={k: env[k] for k in badk}, actual={k: got.get(k) for k in badk})
         if it % 5 != 0:
-            if got != ref:
-                bad = sorted(k for k in ref if got.get(k) != ref[k])
+            refc = dict(ref, CN0=given['CN0']) if 'CN0' in given else ref
+            if got != refc:
+                bad = sorted(k for k in refc if got.get(k) != refc[k])
                 chk.fail('C18:constants-order', 'the constants depend on the order of the keys in the parameter file', {'order': [k for k, _ in items]},
-                         expected={k: ref[k] for k in bad}, actual={k: got.get(k) for k in bad})
+                         expected={k: refc[k] for k in bad}, actual={k: got.get(k) for k in bad})
         # print -> parse round trip, through the real setupSave
         folder = os.path.join(work, 'cs%d' % it)
 
